@@ -65,23 +65,47 @@ Proof.
   apply N.leb_le in H1. lia.
 Qed.
 
+Lemma plain_decimal_digits s neg ip fpd : plain_decimal s = Some (neg, ip, fpd) ->
+  forallb is_digit ip = true /\ forallb is_digit fpd = true.
+Proof.
+  unfold plain_decimal.
+  match goal with |- context [let '(a, b) := ?p in _] => destruct p as [n body] end.
+  destruct (split_at_dot body) as [i fp].
+  set (fd := match fp with Some d => d | None => [] end).
+  destruct (forallb is_digit i) eqn:Ei; cbn [andb negb]; [|discriminate].
+  destruct (forallb is_digit fd) eqn:Ef; cbn [negb]; [|discriminate].
+  destruct i; [destruct fd eqn:E; [discriminate|]|]; intros [= <- <- <-]; rewrite ?Ei, ?Ef; auto.
+Qed.
+Lemma forallb_digit_app a b : forallb is_digit a = true -> forallb is_digit b = true -> forallb is_digit (a ++ b) = true.
+Proof. intros Ha Hb. rewrite forallb_app, Ha, Hb. reflexivity. Qed.
+
 Lemma parse_float_trunc_range s z : parse_float_trunc s = Some (Some z) -> in_i64 z.
 Proof.
+  assert (G : forall (neg : bool) (v : Z), (0 <= v)%Z ->
+     (if v <? 9007199254740992 then Some (Some (if neg then - v else v)) else None) = Some (Some z) -> in_i64 z).
+  { intros neg v Hv. destruct (Z.ltb_spec v 9007199254740992); [|discriminate].
+    intros [= <-]. unfold in_i64, two63. destruct neg; lia. }
   unfold parse_float_trunc.
   destruct (negb (only_plain_chars s)).
-  - repeat match goal with |- context [if ?c then _ else _] => destruct c end; discriminate.
-  - match goal with |- context [let '(a, b) := ?p in _] => destruct p as [neg body] end.
-    destruct (split_at_dot body) as [ip fp].
-    destruct (forallb is_digit ip) eqn:Ei; cbn [andb negb];
-      [|intros H; discriminate H].
-    match goal with |- context [negb (forallb is_digit ?x)] => set (fpd := x) end.
-    destruct (forallb is_digit fpd); cbn [negb]; [|discriminate].
-    pose proof (digits_val_nonneg ip Ei) as Hn.
-    assert (G : (if digits_val ip <? 9007199254740992
-                 then Some (Some (if neg then - digits_val ip else digits_val ip)) else None) = Some (Some z) -> in_i64 z).
-    { destruct (Z.ltb_spec (digits_val ip) 9007199254740992); [|discriminate].
-      intros [= <-]. unfold in_i64, two63. destruct neg; lia. }
-    destruct ip; [destruct fpd; [discriminate|]|]; exact G.
+  - destruct (forallb is_plain_or_exp s).
+    + destruct (split_at_exp s) as [m [x|]]; [|discriminate].
+      destruct (plain_decimal m) as [[[neg ip] fpd]|] eqn:Ep.
+      * destruct (parse_int_text x) as [e|].
+        -- destruct (plain_decimal_digits _ _ _ _ Ep) as [Hi Hf].
+           pose proof (digits_val_nonneg (ip ++ fpd) (forallb_digit_app _ _ Hi Hf)) as Hd.
+           match goal with |- context [if ?c then None else _] => destruct c end; [discriminate|].
+           match goal with |- context [if 0 <=? ?sc then _ else _] => destruct (Z.leb_spec 0 sc) end.
+           ++ apply G. apply Z.mul_nonneg_nonneg; [exact Hd|]. apply Z.pow_nonneg. lia.
+           ++ apply G. apply Z.div_pos; [exact Hd|]. apply Z.pow_pos_nonneg; lia.
+        -- destruct x; [discriminate|].
+           match goal with |- context [if ?c then _ else _] => destruct c end; discriminate.
+      * destruct (parse_int_text x); [|].
+        -- destruct x; [discriminate|]. match goal with |- context [if ?c then _ else _] => destruct c end; discriminate.
+        -- destruct x; [discriminate|]. match goal with |- context [if ?c then _ else _] => destruct c end; discriminate.
+    + repeat match goal with |- context [if ?c then _ else _] => destruct c end; discriminate.
+  - destruct (plain_decimal s) as [[[neg ip] fpd]|] eqn:Ep; [|discriminate].
+    destruct (plain_decimal_digits _ _ _ _ Ep) as [Hi _].
+    apply G. apply digits_val_nonneg. exact Hi.
 Qed.
 
 Lemma int_scalar_range v z : int_scalar v = Some z -> in_i64 z.
